@@ -33,10 +33,25 @@ Theorem C15_teardown_releases_everything : forall a,
 Proof. exact close_events_w. Qed.
 Print Assumptions C15_teardown_releases_everything.
 
+(* the teardown causes that come from outside the protocol. A control connection that ends (stream listeners) takes
+   exactly its own 5-tuple's allocation with it, announcing what that allocation owned; closing the server ends every
+   allocation, announces each one's teardown and leaves nothing *)
+From Turn Require Import RelayTime7.
+Theorem C15_control_connection_close : forall cfg s src s' acts, inv cfg s -> step cfg s (ECtlClose src) = (s', acts) ->
+  find_alloc src (allocs s') = None /\ (forall c, c <> src -> find_alloc c (allocs s') = find_alloc c (allocs s)) /\
+  acts = match find_alloc src (allocs s) with Some a => close_events a | None => [] end.
+Proof. exact ctl_close_spec. Qed.
+Print Assumptions C15_control_connection_close.
+Theorem C15_server_close_leaves_nothing : forall cfg s s' acts, step cfg s ESrvClose = (s', acts) ->
+  allocs s' = [] /\ acts = flat_map close_events (allocs s).
+Proof. exact srv_close_spec. Qed.
+Print Assumptions C15_server_close_leaves_nothing.
+
 (* ---------- history level ---------- *)
 From Turn Require Import Common RelayCheck RelayProps RelayTrace.
 (* the predicate evaluated on the implementation's observed traces (chk_C15: after every step Created minus Deleted
-   callbacks so far = what the listing shows) holds on every trace of the model *)
+   callbacks so far = what the listing shows; a closed control connection's client has no allocation; after
+   Server.Close the listing is empty) holds on every trace of the model *)
 Theorem C15_predicate_holds_on_every_model_trace : forall cfg ep h, chk_C15 (model_case cfg ep h) = true.
 Proof. exact chk_C15_on_model. Qed.
 Print Assumptions C15_predicate_holds_on_every_model_trace.
